@@ -768,8 +768,16 @@ def subscript_cases():
     return out
 
 
+def code_window_ref():
+    """code is one of the byte sequences: a Contract built over a chunk window reads the window's bytes and zeros past its end (C19's unit)"""
+    from contracts import c19
+    from contracts.common import rewrap
+
+    return rewrap(PROP, c19.init_cases(), "code-is-the-window")
+
+
 def build_cases(tier="quick"):
-    return subscript_cases() + read_cases() + write_cases() + copy_cases() + chunk_contract_cases()
+    return code_window_ref() + subscript_cases() + read_cases() + write_cases() + copy_cases() + chunk_contract_cases()
 
 
 def bounded():
